@@ -18,12 +18,12 @@ CHECKS = {
              text="At every StartCommand the trace must show all producers finished, directories present and the response file in place; schedules are chosen by the generator.", ref="4/C04", note=SIM_NOTE),
  "C05": dict(level="fault_enumeration", engine="SIM+E2E", technique="fault-injection property testing: generated fault maps x -k x -j x schedules with trace and log invariants",
              text="Commands are made to fail (several exit codes, with/without touching outputs) and the containment, exit-status, logging and retry clauses are checked on the trace and on the re-loaded logs.", ref="4/C05", note=SIM_NOTE),
- "C06": dict(level="exploration", engine="SIM+E2E", technique="trace-invariant property testing (limits, once-only, retrospective no-idle, termination incl. 'success implies everything needed was started'); all completion orders enumerated for small graphs; real binary as a fifo-jobserver client (tokens returned on every path incl. stat errors after a command, concurrency, must terminate) and under -l with a scripted load average (LD_PRELOAD getloadavg shim)",
+ "C06": dict(level="exploration", engine="SIM+E2E", technique="trace-invariant property testing (limits, once-only, retrospective no-idle, termination incl. 'success implies everything needed was started'); all completion orders enumerated for small graphs; real binary on wide graphs whose commands close their output and keep running (live commands <= -j and pool depth); real binary as a fifo-jobserver client (tokens returned on every path incl. stat errors after a command and an unknown deps type, concurrency, must terminate) and under -l with a scripted load average (LD_PRELOAD getloadavg shim)",
              text="Concurrency and pool limits, at-most-once, no idle slot and termination are checked on traces of generated builds with pools, faults and schedules.", ref="4/C06", note=SIM_NOTE),
  "C07": dict(level="fault_enumeration", engine="SIM+E2E", technique="fault-injection property testing: generated histories stopped at enumerated crash points, runner boundaries, interrupts (SIM) and by real signals / SIGKILL / hook crash points (real binary), recovery compared with the clean-build evaluator",
              text="The last build of a generated history is stopped at one of 13 named points between persistence steps (1st-3rd hit), at any command-runner call, or by an interrupt with commands that did or did not modify their outputs; the real binary is additionally hit by SIGINT/SIGTERM/SIGHUP, SIGKILL of the tree and crashes inside -t recompact. The next invocation must start, succeed, reproduce the clean tree and converge; the interrupt contract (130, lock file, modified outputs removed, children gone) is checked.",
              ref="4/C07", note=SIM_NOTE + " Crash points are the guarded NINJA_VERIF_POINT hooks; power loss is out of reach."),
- "C08": dict(level="fault_enumeration", engine="LOG", technique="stateful property testing (Hypothesis) of BuildLog sessions with every-offset truncation, oracle = reference fold over complete lines plus a session model (the record completely written last for an output and not cut off since must rule)",
+ "C08": dict(level="fault_enumeration", engine="LOG", technique="stateful property testing (Hypothesis) of BuildLog sessions with every-offset truncation, oracle = reference fold over complete lines plus a session model; the real binary's recompaction (explicit and automatic) after statements were removed or renamed must keep the record of every output still in the manifest or on disk (the record completely written last for an output and not cut off since must rule)",
              text="Generated multi-session histories on a real .ninja_log; the file is cut at every byte offset (exhaustive for files up to 4 KiB) and torn tails are continued by later sessions; what ninja loads is compared with an independent fold over the complete lines of the same bytes; recompaction, restat and unsupported versions are checked clause by clause.",
              ref="4/C08", note="Trusted base: M-buildlog in verif/props/C08.py, the probe's op interpreter (cxx/probe_misc.h). Command hashes are ninja's own; lines >= 256 KiB may be dropped (documented)."),
  "C09": dict(level="fault_enumeration", engine="LOG", technique="stateful property testing of DepsLog sessions with every-offset truncation, garbage tails and structured damage, oracle = independent binary-format parser + recorded-deps model",
@@ -38,13 +38,13 @@ CHECKS = {
  "C20": dict(level="exploration", engine="E2E+SIM", technique="transcript-grammar oracle over the real binary's piped stdout for generated graphs/outputs/-j/failures/formats, plus counter invariants on the raw Status call sequence in the SIM",
              text="Commands print generated byte strings (tags, NUL, high bytes, CSI and non-CSI escapes, with/without final newline) in several chunks; a transcript parser accepts only status line, FAILED header + command line, the command's bytes as one contiguous block and one separating newline, and checks the progress counters; the SIM checks started/finished/total on every build of generated histories.",
              ref="4/C20", note="Trusted base: the transcript parser in verif/props/C20.py, vtool. Two genuine defects found here were repaired (fix: 827f6bd, 37dc2d7). Smart-terminal (pty) rendering is not covered."),
- "C10": dict(level="exploration", engine="SIM", technique="metamorphic testing: discovered dependencies vs the same dependencies declared as implicit inputs, same generated history on both",
+ "C10": dict(level="exploration", engine="SIM", technique="metamorphic testing: discovered dependencies vs the same dependencies declared as implicit inputs, same generated history on both, incl. a source edited while the build runs (judged on the run that follows)",
              text="Each generated history runs twice in lockstep: on the graph whose commands report hidden reads through depfile/deps=gcc/deps=msvc (sources and generated files, canonical and -Iinc/.. style spellings) and on the variant with those reads written as implicit inputs; result, commands run and contents must agree per invocation. Differences that the counterfactual model attributes to known finding D1 are listed, not hidden.",
              ref="4/C10", note=SIM_NOTE),
  "C11": dict(level="exploration", engine="SIM", technique="metamorphic testing (dyndep vs inlined manifest) plus mutation/truncation of dyndep files against a by-construction validity oracle",
              text="Graphs with 1-2 dyndep files (present or produced mid-build; adding inputs, outputs, restat; build-level and rule-level bindings) run next to the manifest with that information inlined; 13 structural mutations and truncation (every offset for a fixed family) must make the build fail without running the bound statements.",
              ref="4/C11", note=SIM_NOTE + " Five genuine defects found here were repaired (fix: c03a4e2, b94642d, 27f5f3f, 64ea95a and D13's 9d5201e); D18 is a listed known finding."),
- "C17": dict(level="exploration", engine="SIM", technique="bounded-exhaustive enumeration of small graphs plus generated cycle injection, oracle = reference cycle finder on the needed closure",
+ "C17": dict(level="exploration", engine="SIM", technique="bounded-exhaustive enumeration of small graphs plus generated cycle injection (manifest, depfile, deps log, dyndep incl. two chained dyndep files), oracle = reference cycle finder on the needed closure",
              text="Every 2-statement graph over 3 files (thorough: 4) with every input kind and validations, every 3-statement graph with explicit/order-only inputs, every target; plus generated graphs with one injected cycle (manifest, depfile, deps log, dyndep at scan time or mid-build, phony self-reference in both -w modes) or the acyclic validation control; the printed cycle is verified hop by hop and no statement of the cycle may start once it is known.",
              ref="4/C17", note=SIM_NOTE + " Known findings D1 (cycle through discovered inputs of an already-dirty statement) and D19 (dyndep-added output, consumer not re-scanned) are attributed by narrow predicates."),
  "C12": dict(level="exploration", engine="manifest-diff", technique="differential testing of ManifestParser against a reference evaluator written from the manual, on grammar-generated multi-file programs and single-token mutants",
